@@ -21,6 +21,7 @@ package main
 import (
 	"fmt"
 	"math"
+	"math/big"
 	"strconv"
 	"strings"
 	"time"
@@ -39,6 +40,37 @@ func wraps(r geom.Rect[int]) bool {
 }
 
 func idsI(l []*inode) string { return ids(l) }
+
+// Independent evaluation of the predicates in unbounded integers (math/big), straight from the property text; used
+// to cross-check every evaluation of geom's predicates in histories where nothing wraps.
+func bi(v int) *big.Int { return big.NewInt(int64(v)) }
+
+func bigIn(px, py int, r geom.Rect[int]) bool {
+	if r.Width <= 0 || r.Height <= 0 {
+		return false
+	}
+	right := new(big.Int).Add(bi(r.X), bi(r.Width))
+	bottom := new(big.Int).Add(bi(r.Y), bi(r.Height))
+	return r.X <= px && r.Y <= py && bi(px).Cmp(right) < 0 && bi(py).Cmp(bottom) < 0
+}
+
+func bigContains(a, b geom.Rect[int]) bool {
+	if a.Width <= 0 || a.Height <= 0 || b.Width <= 0 || b.Height <= 0 {
+		return false
+	}
+	ar, ab := new(big.Int).Add(bi(a.X), bi(a.Width)), new(big.Int).Add(bi(a.Y), bi(a.Height))
+	br, bb := new(big.Int).Add(bi(b.X), bi(b.Width)), new(big.Int).Add(bi(b.Y), bi(b.Height))
+	return a.X <= b.X && a.Y <= b.Y && br.Cmp(ar) <= 0 && bb.Cmp(ab) <= 0
+}
+
+func bigIntersects(a, b geom.Rect[int]) bool {
+	if a.Width <= 0 || a.Height <= 0 || b.Width <= 0 || b.Height <= 0 {
+		return false
+	}
+	ar, ab := new(big.Int).Add(bi(a.X), bi(a.Width)), new(big.Int).Add(bi(a.Y), bi(a.Height))
+	br, bb := new(big.Int).Add(bi(b.X), bi(b.Width)), new(big.Int).Add(bi(b.Y), bi(b.Height))
+	return bi(a.X).Cmp(br) < 0 && bi(a.Y).Cmp(bb) < 0 && ar.Cmp(bi(b.X)) > 0 && ab.Cmp(bi(b.Y)) > 0
+}
 
 func (iwArea) Run(line string) string {
 	busySince.Store(time.Now().UnixNano())
@@ -112,6 +144,14 @@ func (iwArea) Run(line string) string {
 				return out
 			}
 			mt := func(o *inode) bool { return m.Matches(o) }
+			if !wrapped { // geom's predicates against unbounded-integer arithmetic
+				for _, o := range stored {
+					if p.In(o.r) != bigIn(p.X, p.Y, o.r) || o.r.Intersects(r) != bigIntersects(o.r, r) ||
+						o.r.Contains(r) != bigContains(o.r, r) || r.Contains(o.r) != bigContains(r, o.r) {
+						return fmt.Sprintf("FAIL geom predicate differs from unbounded-integer evaluation: p=%v q=%v stored=%v", p, r, o.r)
+					}
+				}
+			}
 			for _, c := range []struct {
 				what  string
 				b     bool
